@@ -34,6 +34,23 @@ def _mk_stub(kind):
 
 STUBS = [_mk_stub(k) for k in range(3)]
 
+# kind 3: real dyadic categorical over {0,1,2}, masses (1/2,1/4,1/4) rotated by the parameter
+LN2 = float(np.log(2.0))
+_DY_LOGITS = jnp.asarray([-1.0, -2.0, -2.0]) * LN2
+
+
+def _dy_logits(p):
+    return jnp.roll(_DY_LOGITS, jnp.asarray(p, dtype=jnp.int32))
+
+
+def _mk_dy():
+    from genjax import categorical
+    return distribution(lambda p: categorical.sample(_dy_logits(p)),
+                        lambda v, p: categorical.logpdf(v, _dy_logits(p)), name="dy")
+
+
+STUBS.append(_mk_dy())
+
 
 def name(a):
     return f"a{a}"
